@@ -605,3 +605,43 @@ pub fn slot_loop_family(rng: &mut Rng) -> Shape {
     p.push(Ins::ret());
     Shape { name: "loop-carried-slots", prog: p }
 }
+
+/// Exit ecalls whose number is inherited (C03, C11, C12): a7 is loaded once for a common path and
+/// overridden on another; the second `ecall` stands directly behind the first one and gets its a7
+/// only from a jump around it. Only a second round of "which ecalls are exits" can see that it is an
+/// exit too. More code (a function) follows, so an edge that wrongly survives is visible.
+pub fn exit_ecall_family(rng: &mut Rng) -> Shape {
+    let mut p = Program::default();
+    let e1 = *rng.pick(&[10, 93]);
+    let e2 = *rng.pick(&[10, 93]);
+    let non_exit = rng.chance(0.25);
+    p.label("main");
+    if rng.chance(0.7) {
+        p.push(Ins::call("check"));
+    } else {
+        p.push(Ins::li(A0, rng.range(0, 2) as i32));
+    }
+    // the common number (sometimes not an exit at all: then the second ecall really falls through)
+    p.push(Ins::li(A7, if non_exit { 1 } else { e1 }));
+    p.push(Ins::Branch { c: *rng.pick(&[Cond::Eq, Cond::Ne]), rs1: A0, rs2: ZERO, label: "done".into() });
+    if rng.chance(0.6) {
+        p.push(Ins::li(A0, 1));
+    }
+    p.push(Ins::li(A7, e2));
+    p.push(Ins::Ecall);
+    p.label("done");
+    if rng.chance(0.4) {
+        p.push(Ins::addi(A0, A0, 0));
+    }
+    p.push(Ins::Ecall);
+    if non_exit {
+        exit(&mut p);
+    }
+    p.label("check");
+    p.push(Ins::li(A0, rng.range(0, 2) as i32));
+    if rng.chance(0.5) {
+        p.push(Ins::addi(A0, A0, 1));
+    }
+    p.push(Ins::ret());
+    Shape { name: "exit-number-inherited", prog: p }
+}
